@@ -31,8 +31,16 @@ type Msg struct {
 func Scan(b []byte) (Msg, error) {
 	m := Msg{Raw: b}
 	rest := b
+	dataLen := -1 // >= 0: the next field is a data field of that many bytes (it may contain SOH)
 	for len(rest) > 0 {
 		i := bytes.IndexByte(rest, SOH)
+		if dataLen >= 0 {
+			// "tag=" then exactly dataLen bytes then SOH
+			if eq := bytes.IndexByte(rest, '='); eq > 0 && dataLen < len(rest) && eq+1+dataLen < len(rest) && rest[eq+1+dataLen] == SOH {
+				i = eq + 1 + dataLen
+			}
+			dataLen = -1
+		}
 		if i < 0 {
 			return m, errors.New("wire: trailing bytes without SOH")
 		}
@@ -47,8 +55,23 @@ func Scan(b []byte) (Msg, error) {
 			return m, fmt.Errorf("wire: bad tag %q", f[:eq])
 		}
 		m.Fields = append(m.Fields, Field{tag, string(f[eq+1:])})
+		if IsDataLengthTag(tag) {
+			if n, err := strconv.Atoi(string(f[eq+1:])); err == nil && n >= 0 {
+				dataLen = n
+			}
+		}
 	}
 	return m, nil
+}
+
+// IsDataLengthTag tells the length fields of the standard FIX data fields (the next field carries that many
+// bytes, which may include the delimiter).
+func IsDataLengthTag(tag int) bool {
+	switch tag {
+	case 90, 93, 95, 212, 348, 350, 352, 354, 356, 358, 360, 362, 364, 445, 618, 621:
+		return true
+	}
+	return false
 }
 
 func (m Msg) Get(tag int) (string, bool) {
